@@ -23,8 +23,9 @@ RULE = ("A real parse_folder.main() is run in-process on generated jobs (2-3 pag
 ASSUMPTIONS = ["kills inside a write (torn files) are outside the statement and are not injected",
                "pages are processed sequentially (--process-count 1) so that 'between two consecutive writes' is well defined"]
 
-ID_SETS = [("a", "a.xml.b", "scan.v2"), ("p", "p.jpg.1"), ("x.logits.y", "x", "a 1"), ("doc-1", "doc-1.v2", "b.jpg")]
-LINES = (2, 1, 3)
+ID_SETS = [("a", "a.xml.b", "scan.v2"), ("p", "p.jpg.1"), ("x.logits.y", "x", "a 1"), ("doc-1", "doc-1.v2", "b.jpg"),
+           tuple("p%d" % i for i in range(1, 12))]
+LINES = (2, 1, 3, 1, 1, 2, 1, 1, 1, 2, 1)
 SUBSETS = [tuple(k for k, bit in zip(F.OUTPUT_KINDS, bits) if bit) for bits in itertools.product((0, 1), repeat=5) if any(bits)]
 QUICK_SUBSETS = [F.OUTPUT_KINDS, ("xml", "alto"), ("xml", "render", "logits"), ("logits", "lines"), ("alto",)]
 CONSULTED = ("xml", "logits", "render", "alto")
@@ -183,7 +184,13 @@ KNOWN = {"line-crops-no-completion-record": known_lines}
 def single_cases(tier):
     out = []
     subsets = QUICK_SUBSETS if tier == "quick" else SUBSETS
-    idsets = ID_SETS[:2] if tier == "quick" else ID_SETS
+    idsets = ID_SETS[:2] if tier == "quick" else ID_SETS[:4]
+    # the eleven-page job (names interleave: p1, p10, p11, p2, ...): fewer subsets, every 2nd / 4th crash point
+    big = ID_SETS[4]
+    for sub in ([("xml", "alto")] if tier == "quick" else QUICK_SUBSETS):
+        n_writes = sum((len([k for k in sub if k != "lines"]) + (n if "lines" in sub else 0)) for n in LINES[:len(big)])
+        for k in range(0, n_writes + 1, 4 if tier == "quick" else 2):
+            out.append((big, tuple(sub), (k,)))
     for ids in idsets:
         for sub in subsets:
             n_writes = sum((len([k for k in sub if k != "lines"]) + (n if "lines" in sub else 0)) for n in LINES[:len(ids)])
